@@ -34,13 +34,15 @@ known('F5b', 'C15', ['C15.hang'], F5b + ' and stays started in history, wait_unt
 known('F9', 'C09', ['C09.event_bus'], 'event.event_bus returns the last bus of event_path, wrong for handlers that run after the event was forwarded')
 F11 = 'an in-flight (started) parent is evicted from a small history while its children outnumber max_history_size; upward completion cannot find it'
 known('F11', 'C13', ['C13.hang'], F11 + ' and awaiting it hangs')
-for p in ('C01', 'C03', 'C04', 'C07', 'C10', 'C14', 'C15'):
+known('F2', 'C11', ['C11.await_raised', 'C11.event_incomplete', 'C11.C01_missing', 'C11.hang'], F2 + '; the guard error escapes from an in-handler await', '')
+for p in ('C01', 'C03', 'C04', 'C07', 'C10', 'C11', 'C14', 'C15', 'C17', 'C18'):
     cl = HANG(p) + ({'C10': ['C10.event_incomplete', 'C10.result_left_nonterminal'], 'C03': ['C03.descendant_incomplete'], 'C04': ['C04.child_incomplete_at_return', 'C04.descendant_incomplete'],
-                     'C14': ['C14.parent_never_completes']}.get(p, []))
+                     'C14': ['C14.parent_never_completes'], 'C11': ['C11.event_incomplete'], 'C17': ['C17.C01_hang', 'C17.event_incomplete']}.get(p, []))
     known('F11', p, cl, F11, '')
 known('F16', 'C16', ['C16.hang'], 'dispatch()/wait_until_idle() on a bus after stop() began restarts a run loop on the shut-down queue, which spins forever without sleeping (livelock; stop() itself can then cancel the wrong task)')
 known('F20', 'C16', ['C16.handler_after_stop'], 'an event of the stopped bus whose inline processing (by an awaiting handler) had begun before stop() returned still starts its remaining handlers afterwards')
 known('F21', 'C17', ['C17.written_before_handlers_finished'], 'an event dispatched twice to the same bus is processed a second time (as a no-op) inline by its own awaiting handler, and that second processing appends its WAL line while the event\'s handler is still running')
+known('F23', 'C15', ['C15.hang', 'C15.accepted_unprocessed_at_return'], 'a handler that ends with a CancelledError of its own making (e.g. it awaited a cancelled task) is taken for cancellation of the run loop: the loop exits silently, its event never completes, queued events stay queued and a wait_until_idle() already in progress never returns')
 known('F14', 'C02', ['C02.inversion'], 'a run loop holds a dequeued event while blocked on the global lock; an awaiting handler drains a later event of that bus first')
 F15 = 'on a parallel_handlers bus two sibling handlers that both await children process those subtrees concurrently'
 known('F15', 'C06', ['C06.overlap'], F15)
@@ -57,6 +59,7 @@ fixed('F8', 'C09', ['C09.own_parent', 'C09.root_has_parent'], 'ca107f3', 'forwar
 fixed('F10', 'C16', ['C16.handler_after_stop'], '2d7c9ce', 'backlog of a stopped bus was processed inline by another bus\'s awaiting handler')
 fixed('F19', 'C16', ['C16.task_survives_cancel', 'C16.cancelled_runloop_not_done'], '770e78d', 'cancel landing while execute_handler awaited its monitor task was swallowed; run loop survived asyncio.run() exit')
 fixed('F13', 'C20', ['C20.runtime_error', 'C20.probe_error'], '8ad1a87', '@retry semaphore contended in one event loop raised RuntimeError (bound to a different event loop) in every later loop')
+fixed('F22', 'C11', ['C11.accessor_raised', 'C11.accessor_raised_without_error', 'C11.accessor_wrong_exception'], '6eaa59a', 'result accessors crashed with RuntimeError(dictionary changed size during iteration) when a forwarded-to bus added results while they waited')
 fixed('F17', 'C15', ['C15.not_idle_at_return'], '67ce4a2', 'wait_until_idle returned with a forwarded event still queued')
 fixed('F18', 'C09', ['C09.children_attribution'], 'f319433', 'child dispatched to two buses by one handler was listed twice in event_children')
 with open('/verif/KNOWN_FINDINGS.jsonl', 'w') as f:
